@@ -1,4 +1,61 @@
 import XPathV.Model.Api
-/-! # Property C10 — theorems (placeholder header; filled in below) -/
+import XPathV.Spec.Grammar
+import XPathV.Lemmas.Facts
+/-!
+# C10 — expressions parse with XPath 1.0 precedence, associativity and token rules
+-/
 namespace XPathV.Theorems.C10
+open XPathV XPathV.Model XPathV.Facts
+
+/-- T0 (F6): the regenerated precedence chain is the XPath 1.0 one, every tier loop accumulates
+on the left and uses one operand parser.  Swapping two tiers, or building right-nested operator
+nodes, changes the generated term and this stops checking. -/
+theorem prec_chain_ok : Generated.precChain = [
+    ⟨"parseOrExpr", "parseAndExpr", ["or"], true, true⟩,
+    ⟨"parseAndExpr", "parseEqualityExpr", ["and"], true, true⟩,
+    ⟨"parseEqualityExpr", "parseRelationalExpr", ["=", "!="], true, true⟩,
+    ⟨"parseRelationalExpr", "parseAdditiveExpr", ["<", ">", "<=", ">="], true, true⟩,
+    ⟨"parseAdditiveExpr", "parseMultiplicativeExpr", ["+", "-"], true, true⟩,
+    ⟨"parseMultiplicativeExpr", "parseUnaryExpr", ["*", "div", "mod"], true, true⟩,
+    ⟨"parseUnionExpr", "parsePathExpr", ["|"], true, true⟩] ∧
+    Generated.exprEntry = "parseOrExpr" ∧ Generated.unaryOperand = "parseUnionExpr" ∧
+    Generated.unaryIsTimesMinusOne = true := by decide
+
+/-- the stage list the model parser runs (computed from the regenerated chain) is the tier list of
+the Recommendation's grammar: `or < and < =,!= < <,>,<=,>= < +,- < *,div,mod < unary - < |` -/
+theorem stages_are_xpath_tiers :
+    stages = (Spec.Grammar.upperTiers.map Stage.tier) ++ [Stage.unary] ++ (Spec.Grammar.lowerTiers.map Stage.tier) := by
+  decide
+
+/-- T0 (F13): `*` is not a name character (so `a*b` multiplies), `:` and `/` never are -/
+theorem star_not_name_char : Generated.starIsNameChar = false ∧ Generated.nameExcludes = [58, 47] ∧
+    Generated.isNameShapeOk = true := by decide
+
+/-- the tier loop is left-associative: having parsed `acc` and seeing an operator of the tier, the
+result continues from `.oper op acc r` — the accumulator is always the *left* operand -/
+theorem tier_loop_left_assoc (f : Nat) (cfg : PCfg) (ops : List String) (rest : List Stage) (acc : Ast) (st st1 st2 : PState)
+    (op : String) (r : Ast)
+    (hop : ops.find? (tokMatches st.s) = some op) (hnext : st.next = .ok st1)
+    (hr : parseChain f cfg rest st1 = .ok (r, st2)) :
+    tierLoop (f+1) cfg ops rest acc st = tierLoop f cfg ops rest (.oper op acc r) st2 := by
+  simp [tierLoop, hop, hnext, hr, bind, Except.bind]
+
+/-- when no operator of the tier follows, the loop returns the accumulator unchanged -/
+theorem tier_loop_stop (f : Nat) (cfg : PCfg) (ops : List String) (rest : List Stage) (acc : Ast) (st : PState)
+    (hop : ops.find? (tokMatches st.s) = none) :
+    tierLoop (f+1) cfg ops rest acc st = .ok (acc, st) := by
+  simp [tierLoop, hop, pure, Except.pure]
+
+/-- unary minus: an odd number of `-` wraps the operand as `x * -1`, an even number cancels -/
+theorem unary_encoding (f : Nat) (cfg : PCfg) (rest : List Stage) (st st1 st2 : PState) (minus : Bool) (x : Ast)
+    (hm : skipMinus (f+1) st false = .ok (minus, st1)) (hx : parseChain f cfg rest st1 = .ok (x, st2)) :
+    parseChain (f+1) cfg (.unary :: rest) st = .ok (if minus then .oper "*" x (.num "-1") else x, st2) := by
+  simp [parseChain, hm, hx, bind, Except.bind, pure, Except.pure]
+
+/-- abbreviations: `.` is `self::node()`, `..` is `parent::node()` (same parse tree node) -/
+theorem dot_is_self_node : mkAxis "self" .all "" "" "" .none = Ast.axis ⟨"self", .all, "", "", "", false, ""⟩ .none := rfl
+
+/-- `//` inserts `descendant-or-self::node()` -/
+theorem slashslash_is_dos (x : Ast) : dosNode x = Ast.axis ⟨"descendant-or-self", .all, "", "", "", false, ""⟩ x := rfl
+
 end XPathV.Theorems.C10
